@@ -355,7 +355,7 @@ func c16consumers(c *Ctx) {
 	for changed := true; changed; {
 		changed = false
 		for _, f := range c.funcsInPkg("internal/state") {
-			if isResolve[f] || isInstance(f) {
+			if isResolve[f] {
 				continue
 			}
 			for _, cs := range engine.Calls(f) {
@@ -378,7 +378,7 @@ func c16consumers(c *Ctx) {
 	}
 	n := 0
 	for _, f := range c.funcsInPkg("internal/state") {
-		if isResolve[f] || isInstance(f) {
+		if isResolve[f] {
 			continue
 		}
 		for _, cs := range engine.Calls(f) {
@@ -694,9 +694,6 @@ func c16loops(c *Ctx) {
 	P, R := c.P, c.R
 	n := 0
 	for _, f := range c.funcsInPkg("internal/state") {
-		if isInstance(f) {
-			continue
-		}
 		for _, h := range engine.RangeLoopsOver(f, func(s ssa.Value) bool { return isIntervalSlice(s.Type(), "SeqInterval", "UIDInterval") }) {
 			n++
 			body := engine.LoopBody(h)
